@@ -21,6 +21,21 @@ def refs_of(msg, out):
                 refs_of(v, out)
 
 
+def data_refs_of(msg, out):
+    """collect identifiers of every TSP.DataReference reachable in msg (references to the package's data files: images ...)"""
+    for fd, val in msg.ListFields():
+        if fd.type != fd.TYPE_MESSAGE:
+            continue
+        is_ref = fd.message_type.full_name == "TSP.DataReference"
+        vals = [val] if hasattr(val, "ListFields") else list(val)
+        for v in vals:
+            if is_ref:
+                if v.identifier:
+                    out.add(v.identifier)
+            else:
+                data_refs_of(v, out)
+
+
 def layout_end(flags):
     n = 12
     for b in range(21):
@@ -50,17 +65,24 @@ def abstract(path):
             t = info.message_infos[0].type
             cls = ID_NAME_MAP.get(t)
             refs = set()
+            drefs = set()
             if cls is not None:
                 m = cls.FromString(msgs[0])
                 refs_of(m, refs)
+                data_refs_of(m, drefs)
                 raw[info.identifier] = m
-            objs[info.identifier] = {"type": t, "digest": iwa.dg(msgs[0]), "refs": sorted(refs), "file": name}
-    out = {"ids": ids, "objs": objs, "files": files, "lastId": 0, "componentFiles": [], "tables": []}
+            objs[info.identifier] = {"type": t, "digest": iwa.dg(msgs[0]), "refs": sorted(refs), "drefs": sorted(drefs), "file": name}
+    out = {"ids": ids, "objs": objs, "files": files, "lastId": 0, "componentFiles": [], "tables": [], "datas": {}, "dataFiles": []}
+    import re
+    # the members that are not archives (Data/..., Metadata/..., previews), without a wrapper folder
+    out["dataFiles"] = sorted({re.sub(r"^[^/]*\.numbers/", "", name) for name, _ in pkg.members if not name.endswith(".iwa")})
     meta_t = NAME_ID_MAP["TSP.PackageMetadata"]
     for oid, o in objs.items():
         if o["type"] == meta_t and oid in raw:
             pm = raw[oid]
             out["lastId"] = pm.last_object_identifier
+            for di in pm.datas:
+                out["datas"][di.identifier] = di.file_name or di.preferred_file_name
             for c in pm.components:
                 loc = c.locator or c.preferred_locator
                 out["componentFiles"].append("Index/" + loc + ".iwa")
@@ -104,7 +126,8 @@ def save_event(src_abs, saved_path, exc=""):
     """-> event for Trace_Package (source abstract state may be None for a failed case)"""
     import warnings
     ev = {"exc": exc, "reopen": "", "srcIds": sorted(set(src_abs["ids"])), "savedIds": [], "rewritten": [], "refs": [], "srcDangling": [],
-          "lastId": 0, "addedFiles": [], "componentFiles": [], "dupIds": [], "tables": []}
+          "lastId": 0, "addedFiles": [], "componentFiles": [], "dupIds": [], "tables": [], "dataIds": [], "dataRefs": [], "srcDataDangling": [],
+          "dataFilesMissing": []}
     if exc:
         return ev
     sv = abstract(saved_path)
@@ -133,6 +156,14 @@ def save_event(src_abs, saved_path, exc=""):
     ev["addedFiles"] = sorted({strip(f) for f in sv["files"]} - {strip(f) for f in src_abs["files"]})
     ev["componentFiles"] = sorted(set(sv["componentFiles"]))
     ev["tables"] = sv["tables"]
+    # data files: the registry of the package metadata (datas: id -> file name under Data/), the references to it, the files themselves
+    def missing(ab):
+        return {i for i, fn in ab["datas"].items() if "Data/" + fn not in ab["dataFiles"]}
+    ev["dataIds"] = sorted(sv["datas"])
+    ev["dataRefs"] = [[i, sv["objs"][i]["drefs"]] for i in sorted(touched) if sv["objs"][i]["drefs"]]
+    src_dref_dangling = {d for o in src_abs["objs"].values() for d in o["drefs"] if d not in src_abs["datas"]}
+    ev["srcDataDangling"] = sorted(src_dref_dangling)
+    ev["dataFilesMissing"] = sorted(missing(sv) - missing(src_abs))
     try:
         with warnings.catch_warnings():
             warnings.simplefilter("ignore")
